@@ -1,5 +1,408 @@
 package main
 
-import "verif/vkit"
+// Keep-alive half of C16: a real nbhttp.Engine (IOModNonBlocking, KeepaliveTime = 7 s) on a real
+// nbio engine on the simulated kernel and virtual time. One connection is injected with
+// AddConnNonTLSNonBlocking at virtual time 0. A client thread runs a list of steps "sleep g
+// seconds, then send one complete HTTP/1.1 request" (or, in the WebSocket variant, an upgrade
+// request followed by "sleep g, send one text message"); the clock thread fires virtual timers
+// exactly as in the core half. Reference model: lastActivity = accept, end of each response
+// (HTTP) / upgrade and each message (WebSocket); the connection must be closed by its read
+// deadline at lastActivity + keep-alive time, not earlier, and with ErrReadTimeout.
 
-func keepaliveScenarios(tier string) []*vkit.Scenario { return nil }
+import (
+	"bytes"
+	"fmt"
+	"net"
+	"net/http"
+	"strings"
+	"time"
+
+	"github.com/lesismal/nbio"
+	"github.com/lesismal/nbio/mempool"
+	"github.com/lesismal/nbio/nbhttp"
+	"github.com/lesismal/nbio/nbhttp/websocket"
+
+	"verif/ekit"
+	"verif/track"
+	"verif/vkit"
+	"verif/vsched"
+	"verif/vshim/vsys"
+	"verif/vshim/vtime"
+)
+
+const (
+	httpKeepalive = 7 * time.Second
+	wsKeepalive   = 4 * time.Second // different from the HTTP value so that a mix-up is visible
+)
+
+type kcfg struct {
+	mode ekit.Mode
+	exec string // inline | go
+	ws   bool
+	gaps []int // seconds slept before each request / message
+	p    int
+}
+
+func (c kcfg) name() string {
+	kind := "http"
+	if c.ws {
+		kind = "ws"
+	}
+	return fmt.Sprintf("keepalive %s %s exec=%s gaps=%v", kind, c.mode, c.exec, c.gaps)
+}
+
+type kworld struct {
+	log  vsched.Obj
+	seq  int
+	conn *nbio.Conn
+	peer *vsys.Peer
+	ka   time.Duration // the keep-alive time that currently applies
+
+	// model: the read deadline lies in [lo, hi]
+	lo, hi time.Time
+	// activity in flight: units (requests / messages) handed to the kernel by the client and
+	// not yet completely processed by the server
+	sent, completed int
+	started         int       // handler / message callback invocations
+	startedAt       time.Time // virtual time of the latest one
+	upgraded        bool
+
+	fires     []fireRec
+	orphanF   int
+	closes    int
+	closeErr  error
+	closeAt   time.Time
+	fails     []string
+	counters  map[string]int
+	clientEnd bool
+}
+
+func (w *kworld) tick() {
+	w.seq++
+	vsched.Record(&w.log, 1, true, uint64(w.seq))
+}
+
+func (w *kworld) failf(format string, a ...interface{}) {
+	w.fails = append(w.fails, fmt.Sprintf(format, a...))
+}
+
+func (w *kworld) dlString() string {
+	if w.hi.After(w.lo) {
+		return fmt.Sprintf("%s..%s", rel(w.lo), rel(w.hi))
+	}
+	return rel(w.lo)
+}
+
+func (w *kworld) kind() string {
+	if w.upgraded {
+		return "ws"
+	}
+	return "http"
+}
+
+func (w *kworld) clock() {
+	vsched.SetDaemon()
+	vsched.Block("clock: no timer armed", func() bool { return vtime.Armed() > 0 })
+	// ---- atomic
+	w.tick()
+	pre := snapTimers(w.conn)
+	if !vtime.FireNext() {
+		vsched.GoNamed("clock", w.clock)
+		return
+	}
+	at := vtime.VNow()
+	post := snapTimers(w.conn)
+	switch {
+	case pre.t[0].armed && !post.t[0].armed:
+		w.counters["timers_fired"]++
+		fr := fireRec{dir: 0, at: at}
+		switch {
+		case w.closes > 0:
+			fr.verdict = "stale"
+			fr.detail = fmt.Sprintf("the read timer fired at %s after the connection's close notification", rel(at))
+		case at.Before(w.lo):
+			fr.verdict = "early"
+			fr.detail = fmt.Sprintf("the read timer fired at %s; last activity + keep-alive time (%v) = %s", rel(at), w.ka, w.dlString())
+		case w.sent > w.completed:
+			// the deadline is being renewed by an exchange in flight: either outcome is accepted
+			fr.verdict = "racy"
+			w.counters["fire_racing_exchange"]++
+		case at.After(w.hi):
+			fr.verdict = "legit"
+			w.failf("keepalive-late kind=%s|last activity + keep-alive time (%v) = %s, but the read timer fired only at %s", w.kind(), w.ka, w.dlString(), rel(at))
+		default:
+			fr.verdict = "legit"
+			w.counters["fire_legit"]++
+		}
+		w.fires = append(w.fires, fr)
+	case pre.t[1].armed && !post.t[1].armed:
+		w.counters["write_timer_fired"]++
+		w.failf("keepalive-unexpected-write-timer|a write deadline timer fired at %s; the scenario sets no write timeout", rel(at))
+	case post.nSleep < pre.nSleep:
+		w.counters["sleep_wakeups"]++
+	case post.nFunc < pre.nFunc:
+		w.orphanF++
+		w.counters["orphan_timer_fired"]++
+	}
+	vsched.GoNamed("clock", w.clock)
+}
+
+// activityStart runs in the HTTP handler / WebSocket message callback.
+func (w *kworld) activityStart() {
+	w.tick()
+	w.started++
+	w.startedAt = vtime.VNow()
+}
+
+// executorDone runs after the connection's job batch returned (the response was flushed and
+// the deadline renewed, or the message callback returned and the deferred renewal ran).
+func (w *kworld) executorDone() {
+	w.tick()
+	if w.started > w.completed {
+		w.completed = w.started
+		if w.closes == 0 {
+			w.lo, w.hi = w.startedAt.Add(w.ka), vtime.VNow().Add(w.ka)
+			w.counters["renewals"]++
+		}
+	}
+}
+
+func (w *kworld) onClose(c net.Conn, err error) {
+	w.tick()
+	w.closes++
+	if w.closes > 1 {
+		w.counters["second_close_notification_judged_by_C03"]++
+		return
+	}
+	w.closeErr, w.closeAt = err, vtime.VNow()
+	if errClass(err) != "rtimeout" {
+		w.failf("keepalive-unexpected-close kind=%s err=%s|the %s connection was closed with %v at %s; an idle keep-alive connection is closed by its read deadline (last activity + %v = %s)", w.kind(), errClass(err), w.kind(), err, rel(w.closeAt), w.ka, w.dlString())
+		return
+	}
+	ok := false
+	for _, f := range w.fires {
+		if f.verdict == "legit" || f.verdict == "racy" {
+			ok = true
+		}
+	}
+	switch {
+	case ok:
+	case len(w.fires) > 0:
+		w.failf("keepalive-%s-close kind=%s|closed with %q at %s: %s", w.fires[0].verdict, w.kind(), err, rel(w.closeAt), w.fires[0].detail)
+	default:
+		w.failf("keepalive-timeout-close-without-expiry kind=%s|closed with %q at %s although the connection's read timer never fired", w.kind(), err, rel(w.closeAt))
+	}
+	ts := snapTimers(w.conn)
+	if ts.t[0].armed || ts.t[1].armed || ts.orphans() > 0 {
+		w.failf("keepalive-timer-armed-after-close kind=%s|deadline timers still armed at the close notification: %v", w.kind(), vtime.ArmedNames())
+	}
+}
+
+func httpRequest(i int) []byte {
+	return []byte(fmt.Sprintf("GET /r%d HTTP/1.1\r\nHost: h\r\n\r\n", i))
+}
+
+func upgradeRequest() []byte {
+	return []byte("GET /ws HTTP/1.1\r\nHost: h\r\nConnection: Upgrade\r\nUpgrade: websocket\r\nSec-WebSocket-Version: 13\r\nSec-WebSocket-Key: dGhlIHNhbXBsZSBub25jZQ==\r\n\r\n")
+}
+
+func wsTextFrame(i int) []byte {
+	payload := []byte(fmt.Sprintf("m%d", i))
+	mask := [4]byte{1, 2, 3, 4}
+	b := []byte{0x81, 0x80 | byte(len(payload))}
+	b = append(b, mask[:]...)
+	for j, c := range payload {
+		b = append(b, c^mask[j%4])
+	}
+	return b
+}
+
+func kbody(c kcfg) func() {
+	return func() {
+		vsys.Configure(false, false)
+		tr := track.New(track.Pooled)
+		mempool.DefaultMemPool = tr
+		w := &kworld{counters: map[string]int{}, ka: httpKeepalive}
+		lastCounters, lastOutcome = w.counters, "setup-failed"
+		var executor func(f func())
+		switch c.exec {
+		case "inline":
+			executor = func(f func()) { f(); w.executorDone() }
+		default:
+			executor = func(f func()) { vsched.GoNamed("exec", func() { f(); w.executorDone() }) }
+		}
+		up := websocket.NewUpgrader()
+		up.KeepaliveTime = wsKeepalive
+		up.OnMessage(func(_ *websocket.Conn, _ websocket.MessageType, _ []byte) { w.activityStart() })
+		conf := nbhttp.Config{
+			Name: "c16", NPoller: 1, ReadBufferSize: 4096, KeepaliveTime: httpKeepalive,
+			BodyAllocator: tr, SupportServerOnly: true, ServerExecutor: executor,
+			Handler: http.HandlerFunc(func(rw http.ResponseWriter, r *http.Request) {
+				w.activityStart()
+				if r.URL.Path == "/ws" {
+					if _, err := up.Upgrade(rw, r, nil); err != nil {
+						w.failf("harness|websocket upgrade failed: %v", err)
+						return
+					}
+					// from here on the WebSocket keep-alive time applies
+					w.tick()
+					w.upgraded = true
+					w.ka = wsKeepalive
+					return
+				}
+				_, _ = rw.Write([]byte("ok"))
+			}),
+		}
+		switch c.mode {
+		case ekit.ET:
+			conf.EpollMod = nbio.EPOLLET
+		case ekit.ONESHOT:
+			conf.EpollMod = nbio.EPOLLET
+			conf.EPOLLONESHOT = nbio.EPOLLONESHOT
+		}
+		engine := nbhttp.NewEngine(conf)
+		engine.OnClose(w.onClose)
+		if err := engine.Start(); err != nil {
+			vsched.Fail("harness|engine start: %v", err)
+			return
+		}
+		w.conn, w.peer = ekit.Stream(false, 1<<20, 1<<20)
+		w.lo, w.hi = vtime.VNow().Add(httpKeepalive), vtime.VNow().Add(httpKeepalive)
+		engine.AddConnNonTLSNonBlocking(&nbhttp.Conn{Conn: w.conn}, nil, func() {})
+		w.hi = vtime.VNow().Add(httpKeepalive)
+		vsched.WaitIdle()
+		if names := vtime.ArmedNames(); len(names) != 1 {
+			vsched.Fail("keepalive-not-armed-at-accept|after AddConnNonTLSNonBlocking %d timers are armed (%v); expected exactly the connection's read deadline", len(names), names)
+			return
+		}
+		vsched.GoNamed("client", func() {
+			send := func(b []byte) {
+				w.tick()
+				w.sent++
+				w.peer.WriteAll(b)
+			}
+			if c.ws {
+				send(upgradeRequest())
+			}
+			for i, g := range c.gaps {
+				if g > 0 {
+					vtime.Sleep(time.Duration(g) * time.Second)
+				}
+				if c.ws {
+					send(wsTextFrame(i))
+				} else {
+					send(httpRequest(i))
+				}
+			}
+			w.tick()
+			w.clientEnd = true
+		})
+		vsched.GoNamed("clock", w.clock)
+		vsched.WaitIdle()
+		// ---- final oracle
+		w.tick()
+		if !w.clientEnd {
+			w.failf("stuck|the client thread did not finish")
+		}
+		if n := vtime.Armed(); n != 0 {
+			w.failf("harness|%d timers still armed at quiescence: %v", n, vtime.ArmedNames())
+		}
+		closed, _ := w.conn.IsClosed()
+		if !closed {
+			w.failf("keepalive-not-enforced kind=%s|the %s connection has been idle since %s (keep-alive time %v), every pending timer has fired (virtual time %s), and it is still open", w.kind(), w.kind(), rel(w.lo.Add(-w.ka)), w.ka, rel(vtime.VNow()))
+		} else if w.closes == 0 {
+			w.counters["closed_without_notification_judged_by_C03"]++
+		}
+		nresp := bytes.Count(w.peer.Got, []byte("HTTP/1.1 200"))
+		w.peer.Read(0)
+		nresp = bytes.Count(w.peer.Got, []byte("HTTP/1.1 200"))
+		w.counters["responses"] += nresp
+		w.counters["exchanges_completed"] += w.completed
+		if w.upgraded {
+			w.counters["ws_upgrades"]++
+		}
+		if errs := vkit.Log.TakeErrors(); len(errs) > 0 {
+			w.failf("logged-error|nbio logged an error (a recovered panic?): %s", errs[0])
+		}
+		if v := tr.Violations(); len(v) > 0 {
+			w.counters["ownership_violations_reported_by_C11"] += len(v)
+		}
+		if w.closes > 0 {
+			lastOutcome = fmt.Sprintf("%s closed %s at %s after %d exchanges", w.kind(), errClass(w.closeErr), rel(w.closeAt), w.completed)
+		} else {
+			lastOutcome = "open"
+		}
+		for _, f := range w.fails {
+			vsched.Fail("%s", f)
+		}
+	}
+}
+
+func keepaliveScenarios(tier string) []weighted {
+	thorough := tier == "thorough"
+	var out []weighted
+	add := func(c kcfg) {
+		nz := 0
+		for i, g := range c.gaps {
+			if g > 0 || i == 0 {
+				nz++
+			}
+		}
+		weight := 300.0
+		switch {
+		case nz >= 3:
+			weight = 20000
+		case nz == 2:
+			weight = 3000
+		}
+		if c.ws {
+			weight *= 1.5
+		}
+		for i := 0; i < c.p; i++ {
+			weight *= 4
+		}
+		out = append(out, weighted{&vkit.Scenario{Name: c.name(), Body: kbody(c), Check: check, P: c.p,
+			Opts:     vsched.Options{Horizon: 60000},
+			Counters: func() map[string]int { return lastCounters }, Outcome: func() string { return lastOutcome },
+			NonTrivial: func(m map[string]int) bool { return m["timers_fired"] > 0 }}, weight})
+	}
+	gapSet := []int{0, 3, 7, 8}
+	maxLen := 2
+	if thorough {
+		gapSet = []int{0, 3, 6, 7, 8}
+		maxLen = 3
+	}
+	var glists [][]int
+	var rec func(cur []int)
+	rec = func(cur []int) {
+		glists = append(glists, append([]int(nil), cur...))
+		if len(cur) == maxLen {
+			return
+		}
+		for _, g := range gapSet {
+			rec(append(append([]int(nil), cur...), g))
+		}
+	}
+	rec(nil)
+	for _, ws := range []bool{false} {
+		for _, m := range ekit.Modes {
+			for _, e := range []string{"go"} {
+				for _, gl := range glists {
+					if m != ekit.LT && len(gl) >= 2 && !thorough {
+						continue // the epoll mode only matters for how the request is read
+					}
+					p := 0
+					if len(gl) <= 1 {
+						p = 1
+					}
+					if thorough {
+						p++
+					}
+					add(kcfg{mode: m, exec: e, ws: ws, gaps: gl, p: p})
+				}
+			}
+		}
+	}
+	_ = strings.Join
+	return out
+}
